@@ -70,6 +70,7 @@ Definition wf_term_n3 (t : term) : bool :=
   match t with
   | TIri s => forallb n3_char s
   | TPname p l => forallb name_char p && forallb name_char l
+                  && negb (starts_with sHTTP_ (p ++ cCOLON :: l)) && negb (starts_with sHTTPS_ (p ++ cCOLON :: l))
   | _ => false
   end.
 Definition ws1_ok (w : str) : bool := negb (is_empty w) && forallb is_ws w.
@@ -83,3 +84,4 @@ Definition wf_item_n3 (i : item) : bool :=
   | IPrefix name iri => forallb name_char name && forallb n3_char iri
   | _ => false
   end.
+Definition wf_doc_n3 (d : list item) : bool := forallb wf_item_n3 d.
